@@ -11,7 +11,7 @@ use crate::runner::{Ctx, Failure, PropDef, Verdict};
 use crate::simnet::app::*;
 use crate::simnet::exec::{shared, Exec, RunEnd, Shared, Signal, Spawner, Style};
 use crate::simnet::peer::{self, PeerOp, RawPeer};
-use crate::simnet::{Net, Side};
+use crate::simnet::{Net, Side, UNLIMITED};
 use crate::tape::{prf_cells, Tape};
 
 pub static PROP: PropDef = PropDef {
@@ -195,11 +195,12 @@ fn hist_json(h: &History) -> Value {
     json!({"reqs": h.reqs.iter().map(|r| format!("{:?}{}", r.ending, if r.late { "+late" } else { "" })).collect::<Vec<_>>(), "goaway_at": h.goaway_at})
 }
 
-pub fn run_history(h: &History, style: Style, sched: &[u16], ctx: &mut Ctx) -> Verdict {
+pub fn run_history(h: &History, style: Style, sched: &[u16], credit: u64, ctx: &mut Ctx) -> Verdict {
     ctx.eval();
     fastrand::seed(19);
     let net = Net::new();
     net.set_raw(Side::Client);
+    net.lock().default_credit[Side::Server.idx()] = credit;
     let o: Shared<Obs> = shared(Obs::default());
     let ended = Rc::new(Cell::new(0i64));
     let sigs: Vec<Signal> = (0..2 * h.reqs.len().max(1)).map(|_| Signal::new()).collect();
@@ -242,7 +243,7 @@ pub fn run_history(h: &History, style: Style, sched: &[u16], ctx: &mut Ctx) -> V
     let end = ex.run(&net, &mut peer, &mut t, style, 200_000);
     let obs = o.borrow().clone();
     let closes = net.close_calls(Side::Server);
-    let case = || json!({"history": hist_json(h), "style": format!("{style:?}"), "sched": sched, "observed": format!("{obs:?}"), "ended": ended.get(), "closes": format!("{closes:?}"), "pending": ex.pending_tasks()});
+    let case = || json!({"history": hist_json(h), "style": format!("{style:?}"), "sched": sched, "credit": if credit == UNLIMITED { -1 } else { credit as i64 }, "observed": format!("{obs:?}"), "ended": ended.get(), "closes": format!("{closes:?}"), "pending": ex.pending_tasks()});
     if end == RunEnd::StepBound {
         return Err(Failure::fault("step bound"));
     }
@@ -330,14 +331,15 @@ fn exhaustive(ctx: &mut Ctx, shard: usize, nshards: usize) -> Verdict {
                     continue;
                 }
                 let h = History { reqs: reqs.clone(), goaway_at: g };
-                run_history(&h, Style::Eager, &[], ctx)?;
+                run_history(&h, Style::Eager, &[], UNLIMITED, ctx)?;
                 let cells = prf_cells(idx as u64, 120);
-                run_history(&h, Style::Random, &cells, ctx)?;
+                run_history(&h, Style::Random, &cells, UNLIMITED, ctx)?;
+                run_history(&h, Style::Random, &cells, 2, ctx)?;
             }
         }
     }
     if shard == 0 {
-        ctx.subspace("all histories of <= 3 requests x 12 (ending, immediate/late) options x GOAWAY position (incl. none) x 2 schedules", idx as u64 * 2);
+        ctx.subspace("all histories of <= 3 requests x 12 (ending, immediate/late) options x GOAWAY position (incl. none) x 2 schedules, the random one also with 2 bytes of send credit", idx as u64 * 3);
     }
     Ok(())
 }
@@ -354,8 +356,14 @@ fn run_tape(tape: &[u16], ctx: &mut Ctx) -> Verdict {
         .collect();
     let goaway_at = if t.chance(1, 6) { None } else { Some(t.pick(n + 1)) };
     let style = [Style::Eager, Style::Tiny, Style::Random][t.pick(3)];
+    let credit = match t.pick(6) {
+        0 | 1 | 2 => UNLIMITED,
+        3 => 0,
+        4 => t.int(1, 12),
+        _ => t.int(1, 300),
+    };
     let sched: Vec<u16> = tape[t.position().min(tape.len())..].to_vec();
-    run_history(&History { reqs, goaway_at }, style, &sched, ctx)
+    run_history(&History { reqs, goaway_at }, style, &sched, credit, ctx)
 }
 
 fn run_direct(d: &Value, ctx: &mut Ctx) -> Verdict {
@@ -380,5 +388,5 @@ fn run_direct(d: &Value, ctx: &mut Ctx) -> Verdict {
         _ => Style::Random,
     };
     let sched: Vec<u16> = d["sched"].as_array().map(|a| a.iter().map(|x| x.as_u64().unwrap_or(0) as u16).collect()).unwrap_or_default();
-    run_history(&History { reqs, goaway_at }, style, &sched, ctx)
+    run_history(&History { reqs, goaway_at }, style, &sched, d["credit"].as_i64().map(|c| if c < 0 { UNLIMITED } else { c as u64 }).unwrap_or(UNLIMITED), ctx)
 }
